@@ -579,10 +579,81 @@ def pam_case(ctx, rng, idx):
             return
 
 
+def covariate_rows_case(ctx, rng, idx):
+    """posterior / prior predictive models over a population predictive
+    model with covariates of the documented shape (n_samples, n_cov): sample
+    k is generated for covariate row k.  Oracle: all dimensions pooled (one
+    covariate-dependent), tiny noise, so that the value of every sample is
+    determined by its own covariate row."""
+    which = ['posterior', 'prior'][idx % 2]
+    n = int(rng.integers(2, 7))
+    n_cov = int(rng.integers(1, 3))
+    pm = chi.PredictiveModel(toys.ToyMulti(1), [chi.GaussianErrorModel()])
+    pop = chi.ComposedPopulationModel([
+        chi.CovariatePopulationModel(
+            chi.PooledModel(), chi.LinearCovariateModel(n_cov=n_cov)),
+        chi.PooledModel(n_dim=3)])
+    pop.set_dim_names(pm.get_parameter_names())
+    ppm = chi.PopulationPredictiveModel(pm, pop)
+    names = ppm.get_parameter_names()
+    a0, k_, b_, sig = 2.0, 0.3, 0.4, 1e-4
+    beta = rng.uniform(5, 20, size=n_cov) * rng.choice([-1, 1], size=n_cov)
+    beta = np.abs(beta)
+    values = [a0] + list(beta) + [k_, b_, sig]
+    if len(names) != len(values):
+        ctx.reject('unexpected parameter layout')
+        return
+    cov = rng.uniform(0, 3, size=(n, n_cov))
+    cov_arg = cov if rng.random() < 0.5 else cov.tolist()
+    times = np.array([0.5, 1.5])
+    feats = {'family': 'covariate_rows', 'model': which, 'n_samples': n,
+             'n_cov': n_cov}
+    ctx.case(('covariate_rows', which, n, n_cov), True,
+             sample=dict(feats, covariates=cov))
+    try:
+        if which == 'posterior':
+            data = {nm: (('chain', 'draw'), np.full((2, 3), v) * (
+                1 + 1e-9 * rng.normal(size=(2, 3))))
+                for nm, v in zip(names, values)}
+            ds = xr.Dataset(data, coords={'chain': [0, 1],
+                                          'draw': [0, 1, 2]})
+            model = chi.PosteriorPredictiveModel(ppm, ds)
+        else:
+            model = chi.PriorPredictiveModel(ppm, pints.ComposedLogPrior(*[
+                pints.GaussianLogPrior(v, 1e-6 * max(abs(v), 1e-3))
+                for v in values]))
+        df = model.sample(times, n_samples=n, seed=int(rng.integers(1000)),
+                          covariates=cov_arg)
+    except Exception as e:      # noqa
+        ctx.violation_exc('sample_raises', e, {'case': feats}, feats)
+        return
+    ctx.count('covariate_row_samples', n)
+    ids = sorted(df['ID'].unique())
+    if len(ids) != n:
+        ctx.violation('one_virtual_patient_per_sample', 'patient_count',
+                      {'ids': len(ids), 'n_samples': n}, feats)
+        return
+    for j, _id in enumerate(ids):
+        rows = df[df['ID'] == _id].sort_values('Time')
+        a = a0 + float(np.sum(beta * cov[j]))
+        want = a * np.exp(-k_ * times) + b_ * times
+        got = rows['Value'].to_numpy(dtype=float)
+        if got.shape != want.shape or np.max(np.abs(got - want)) > 0.01:
+            ctx.violation('sample_follows_its_own_covariates',
+                          'covariate_row_ignored:' + which,
+                          {'sample': j, 'covariates': cov[j],
+                           'values': got, 'expected': want,
+                           'expected_for_row_0':
+                               (a0 + float(np.sum(beta * cov[0]))) *
+                               np.exp(-k_ * times) + b_ * times}, feats)
+            return
+
+
 FAMILIES = [
     Family('individual', individual_case, quick=48, thorough=600),
     Family('population', population_case, quick=160, thorough=3000),
     Family('posterior', posterior_case, quick=120, thorough=2000),
     Family('prior', prior_case, quick=16, thorough=200),
     Family('pam', pam_case, quick=24, thorough=300),
+    Family('covariate_rows', covariate_rows_case, quick=48, thorough=480),
 ]
